@@ -378,6 +378,14 @@ def body_tgedmd(c):
     if c.get('max_rank'):
         kw['max_rank'] = c['max_rank']            # (1000: a cap above every rank is a no-op; 2..4 may bind)
     snap_X, snap_s = X.copy(), sigma.copy()
+    used_before = c['seed'] % 4 == 0
+    if used_before:
+        # the same basis-function objects were used before, for another trajectory (snapshots in reverse order, rescaled)
+        try:
+            with contextlib.redirect_stdout(io.StringIO()):
+                tg.amuset_hosvd(np.array(X[:, ::-1]) * 0.75, basis, np.array(sigma[:, :, ::-1]), b=None if b is None else np.array(b[:, ::-1]), reweight=w, **kw)
+        except Exception:     # noqa -- history only, its data are not guarded
+            pass
     with contextlib.redirect_stdout(io.StringIO()):
         out = tg.amuset_hosvd(X, basis, sigma, b=b, reweight=w, **kw)
     require(np.array_equal(X, snap_X) and np.array_equal(sigma, snap_s), 'inputs_unchanged', 'data or diffusion array modified')
@@ -418,6 +426,8 @@ def body_tgedmd(c):
         lab.add('rescaled_psi')
     if cap_binds:
         lab.add('max_rank_binds')
+    if used_before:
+        lab.add('basis_used_before')
     return lab
 
 
